@@ -1,6 +1,8 @@
 #!/bin/sh
 # usage: showgoal.sh File.v LINE  — print the goals just before LINE (debug helper)
 f=$1; n=$2
-head -n $((n-1)) "$f" > /tmp/_dbg.v
-echo "Show. Abort." >> /tmp/_dbg.v
-cd "$(dirname "$f")" && timeout 300 coqc -Q . XV /tmp/_dbg.v 2>&1 | tail -${3:-40}
+t=/tmp/_dbg_$$.v
+head -n $((n-1)) "$f" > $t
+echo "Show. Abort." >> $t
+cd "$(dirname "$f")" && timeout 300 coqc -Q . XV $t 2>&1 | tail -${3:-40}
+rm -f $t /tmp/_dbg_$$.vo /tmp/_dbg_$$.glob /tmp/_dbg_$$.vok /tmp/_dbg_$$.vos /tmp/._dbg_$$.aux
